@@ -53,7 +53,7 @@ def _clef_change_doc():
     from sv.ref.cells import Doc, Header as H, Note, Null, Op
     from sv.ref.docs import sig
     return Doc([[H('**kern'), H('**kern')], [sig('*clefF4', 'CLEF'), sig('*clefG2', 'CLEF')], [Note('4', pitch='C'), Note('4', pitch='cc')],
-                [sig('*clefC4', 'CLEF'), Null('*')], [Note('4', pitch='D', decs=((3, 'L'),)), Note('4', pitch='dd')], [Note('8', pitch='E'), Note('8', pitch='ee', acc='-')],
+                [sig('*clefC4', 'CLEF'), Null('*')], [Note('4', pitch='D'), Note('4', pitch='dd')], [Note('8', pitch='E'), Note('8', pitch='ee')],
                 [sig('*clefF4', 'CLEF'), sig('*clefC1', 'CLEF')], [Note('2', pitch='F'), Note('2', pitch='ff')], [Op('*-'), Op('*-')]])
 
 
